@@ -25,3 +25,27 @@ pub proof fn lemma_add_one_done(s: Seq<Word>, t: Seq<Word>, k: int)
     assert(valn(s, k + 1) == valn(s, k) + (s[k] as int) * pw(k));
     assert((s[k] as int + 1) * pw(k) == (s[k] as int) * pw(k) + pw(k)) by (nonlinear_arith);
 }
+
+pub proof fn lemma_carry_step(a: int, b: int, cin: int, s: int, cout: int, p: int)
+    requires s + cout * B() == a + b + cin,
+    ensures s * p + cout * (B() * p) == a * p + b * p + cin * p,
+{
+    assert((s + cout * B()) * p == s * p + cout * (B() * p)) by (nonlinear_arith);
+    assert((a + b + cin) * p == a * p + b * p + cin * p) by (nonlinear_arith);
+}
+
+pub proof fn lemma_borrow_step(a: int, b: int, cin: int, s: int, cout: int, p: int)
+    requires s - cout * B() == a - b - cin,
+    ensures s * p - cout * (B() * p) == a * p - b * p - cin * p,
+{
+    assert((s - cout * B()) * p == s * p - cout * (B() * p)) by (nonlinear_arith);
+    assert((a - b - cin) * p == a * p - b * p - cin * p) by (nonlinear_arith);
+}
+
+/// as lemma_hi_carry with B^2 in place of B
+pub proof fn lemma_hi_carry2(hi1: int, hi0: int, cin: int, cout: int, p: int)
+    requires (cin == 0 && cout == 0 && hi1 == hi0) || (cin == 1 && hi1 + cout * p == hi0 + 1),
+    ensures (B() * B()) * hi1 + cout * ((B() * B()) * p) == (B() * B()) * hi0 + cin * (B() * B()),
+{
+    lemma_hi_carry_p(hi1, hi0, cin, cout, p, B() * B());
+}
